@@ -121,6 +121,7 @@ type result struct {
 	writerErr error
 	roundErr  error
 	msgs      int
+	raw       [][]byte // the DeviceServiceInfo messages as sent
 	oversize  string
 	yieldBad  string
 }
@@ -204,6 +205,7 @@ func pipeline(s script, spawn func(func()), wait func(done *bool)) result {
 		}
 	}
 	res.msgs = len(cap.msgs)
+	res.raw = cap.raw
 	// budgets: every message fits the negotiated MTU
 	for i, b := range cap.raw {
 		if len(b) > int(s.mtu) && res.oversize == "" {
@@ -682,7 +684,7 @@ func main() {
 	if !r.Quick() {
 		bound = 3
 	}
-	r.Rule(fmt.Sprintf("(A0) the real ChunkReader.ReadChunk called with EVERY budget 1..700 (thorough 1..1400) for 8 (thorough 60) key lengths with more value bytes pending than fit: each returned chunk encodes within its budget, bytes handed out equal bytes written, a refusal only when key plus one value byte cannot fit. (A) size sweep on the real pipeline UnchunkWriter -> ChunkReader -> exchangeServiceInfoRound (re-exported, recording transport) -> ChunkWriter -> UnchunkReader: MTUs from 24 through 96 (quick: 16 values) and {128,255,256,257,300,320,1300,65535}, key lengths {1,2,5,12,23,24,25,40}, first-message sizes chosen so that the space left in the batch before the next key takes EVERY remainder 0..40, value lengths {1, mtu-1, mtu, mtu+1, 3*mtu}, values written in 1 or 3 writes, with and without yield, buffered and unbuffered pipes; every MTU 24..420 (thorough ..1400) with one value longer than two messages; remainders 250..300 before a second key at MTU 700 and 1300. (B) the same pipeline built from the current serviceinfo/chunk.go and to2.go rewritten onto the cooperative-scheduler shims: ALL interleavings of the producer thread and the batch loop with at most %d preemptions for %d small scripts (two of them with the consumer closing the writer while the producer is still writing) (every channel operation, select, mutex operation, pipe operation and goroutine start is a scheduling point; select picks are free choices). Oracle: reassembled (key, bytes) sequence equals the written one (consecutive equal keys merged), no error seen by writer or batch loop, every DeviceServiceInfo message <= MTU, no deadlock, livelock or panic on any schedule. states = executions (schedules), transitions = scheduling steps.", bound, 5))
+	r.Rule(fmt.Sprintf("(A0) the real ChunkReader.ReadChunk called with EVERY budget 1..700 (thorough 1..1400) for 8 (thorough 60) key lengths with more value bytes pending than fit: each returned chunk encodes within its budget, bytes handed out equal bytes written, a refusal only when key plus one value byte cannot fit. (A) size sweep on the real pipeline UnchunkWriter -> ChunkReader -> exchangeServiceInfoRound (re-exported, recording transport) -> ChunkWriter -> UnchunkReader: MTUs from 24 through 96 (quick: 16 values) and {128,255,256,257,300,320,1300,65535}, key lengths {1,2,5,12,23,24,25,40}, first-message sizes chosen so that the space left in the batch before the next key takes EVERY remainder 0..40, value lengths {1, mtu-1, mtu, mtu+1, 3*mtu}, values written in 1 or 3 writes, with and without yield, buffered and unbuffered pipes; every MTU 24..420 (thorough ..1400) with one value longer than two messages; remainders 250..300 before a second key at MTU 700 and 1300. (B) the same pipeline built from the current serviceinfo/chunk.go and to2.go rewritten onto the cooperative-scheduler shims: ALL interleavings of the producer thread and the batch loop with at most %d preemptions for %d small scripts (two of them with the consumer closing the writer while the producer is still writing) (every channel operation, select, mutex operation, pipe operation and goroutine start is a scheduling point; select picks are free choices). Oracle: reassembled (key, bytes) sequence equals the written one (consecutive equal keys merged), no error seen by writer or batch loop, every DeviceServiceInfo message <= MTU, no deadlock, livelock or panic on any schedule. states = executions (schedules), transitions = scheduling steps. (A2) owner side: every sequence of up to 4 (thorough 5) service infos over two keys of one module x 4 value-size profiles x MTU {1300, 256} is sent by the real device pipeline and handed message by message to the REAL owner responder (TO2Server.Respond(68) with a recording owner module): it answers every message and the module receives exactly what was written, also when a key comes back after another key inside one message.", bound, 5))
 	if r.Replay != "" {
 		replay(r.Replay)
 		return
@@ -693,6 +695,7 @@ func main() {
 	t0 = time.Now()
 	sweep(!r.Quick())
 	r.Set("seconds_sweep", int64(time.Since(t0).Seconds()))
+	ownerSide(!r.Quick())
 	t0 = time.Now()
 	schedules(!r.Quick())
 	r.Set("seconds_schedules", int64(time.Since(t0).Seconds()))
